@@ -46,7 +46,8 @@ class FaultyGraph(nx.Graph):
         return super().neighbors(n)
 
 
-NAMES = ["3-1", "m-0", "7", "2-clique", "0-0", "12", "a-1-2", "1", "1-2", "c4", "K-5", "0"]
+NAMES = ["3-1", "m-0", "7", "2-clique", "0-0", "12", "a-1-2", "1", "1-2", "c4", "K-5", "0", "", "-", "--1", "1-", "[0, 1]", "\u00e9-1", " 1",
+         "1 ", "None", "0x10", "1e3"]
 
 
 def gen_motif(prng, max_edges):
@@ -74,6 +75,12 @@ def gen_motif(prng, max_edges):
     es = es[:max_edges] if kind == "random" else es
     verts = sorted({v for e in es for v in e})
     labels = prng.sample(range(-3, 40), len(verts)) if prng.random() < 0.6 else verts
+    r = prng.random()
+    if r < 0.08:
+        base = prng.choice((250, 995, 2 ** 31 - 3, 2 ** 63 + 5))
+        labels = [base + x for x in prng.sample(range(0, 12), len(verts))]          # width changes (9 -> 10, 999 -> 1000), big ints
+    elif r < 0.12:
+        labels = prng.sample([-12, -11, -2, -1, 0, 1, 2, 10, 11, 12, 21, 100, 101, 110, 111, 112], len(verts))
     m = dict(zip(verts, labels))
     out = [[m[a], m[b]] for a, b in es]
     prng.shuffle(out)
@@ -90,7 +97,7 @@ def gen_operands(prng, verts, kind):
         x = [prng.randrange(0, GRID + 1), GRID]
         return {"kind": "exact", "phi": [prng.randrange(0, GRID + 1), GRID], "u": [[v, x] for v in verts]}
     if kind == "edge":
-        return {"kind": "exact", "phi": prng.choice(([0, 1], [1, 1], [1, 2])),
+        return {"kind": "exact", "phi": prng.choice(([0, 1], [1, 1], [1, 2], [1, 10 ** 30], [10 ** 30 - 1, 10 ** 30])),
                 "u": [[v, prng.choice(([0, 1], [1, 1], [1, 3]))] for v in verts]}
     return {"kind": "poly"}
 
